@@ -1,5 +1,6 @@
 (* Pinned statements for C03: a changed statement or a new axiom fails the check. *)
 From SwimV Require Import Model.Uplinks Proofs.UplinksProofs Model.ValuePipeline Proofs.ValuePipelineProofs Props.C03.
+From SwimV Require Import Model.MapLane Proofs.MapQueueProofs Proofs.MapLaneProofs Proofs.MapLaneSyncProofs.
 Open Scope N_scope.
 Check (C03_value_synced_after_value) : (forall u l rest x b, u_sq u = [] -> u_wq u = (KValue, l) :: rest -> aget l (u_values u) = Some x -> uv_synced x = true -> uv_cur x = Some b -> option_map frames_of (snd (replace_and_pop u)) = Some [FEvent l b; FSynced l]).
 Print Assumptions C03_value_synced_after_value.
@@ -15,3 +16,9 @@ Check (C03_value_sync_before_event) : (forall l, vl_syncq l <> [] -> forall a, I
 Print Assumptions C03_value_sync_before_event.
 Check (C03_value_tail_converges) : (forall init ops1 ops2 r, let p1 := pexec (pipe0 init) ops1 in let p2 := pexec (pipe0 init) (ops1 ++ ops2) in Owes r p1 -> Forall (fun o => o <> PUnlink r /\ o <> PStopAll) ops2 -> vl_dirty (p_lane p2) = false -> forall x, aget r (p_rems p2) = Some x -> v_home (r_up x) = true -> last_opt (events_of (r_sent x)) = Some (vl_content (p_lane p2))).
 Print Assumptions C03_value_tail_converges.
+Check (C03_map_sync_replica_converges) : (forall id ops, NoDup (sync_ids ops) -> 2 * len ops + 2 < W -> let '(l, rep0, st, rep) := strack id lane0 [] SNone [] ops in st = SSynced -> (forall d, effs d (events (evq l)) (lookup d rep) = lookup d (l_map l)) /\ (events (evq l) = [] -> forall d, lookup d rep = lookup d (l_map l))).
+Print Assumptions C03_map_sync_replica_converges.
+Check (C03_map_syncing_replica_is_consistent) : (forall id ops, NoDup (sync_ids ops) -> 2 * len ops + 2 < W -> let '(l, rep0, st, rep) := strack id lane0 [] SNone [] ops in st = SSyncing -> exists K, pend id (syncs_of l) = Some K /\ forall d, (inK d K = true /\ lookup d rep = None) \/ effs d (events (evq l)) (lookup d rep) = lookup d (l_map l)).
+Print Assumptions C03_map_syncing_replica_is_consistent.
+Check (C03_map_sync_witness) : (let ops := [LUpdate (1, 0) 5; LUpdate (2, 0) 6; LSync 9; LWrite; LWrite; LUpdate (3, 0) 7; LRemove (1, 0); LWrite; LWrite; LWrite; LWrite; LWrite; LWrite; LWrite; LWrite] in let '(l, rep0, st, rep) := strack 9 lane0 [] SNone [] ops in st = SSynced /\ events (evq l) = [] /\ lookup 1 rep = None /\ lookup 2 rep = Some 6 /\ lookup 3 rep = Some 7).
+Print Assumptions C03_map_sync_witness.
